@@ -868,8 +868,10 @@ def run(ctx, rep):
     m = decmodel.extract(ctx)
     R = m["roles"]
     dec = ctx.api("decoder")
-    rep.ob("V0", True, R["top_call"], dec, construct="top-level derivation call",
+    rep.ob("V0", R.get("top_state", 0) == 0, R["top_call"], dec, construct="top-level derivation call",
            how="passes the constants 0 (state) and None (previous atom): parameters %s, %s" % (R["budget"], R["root"]),
+           witness=None if R.get("top_state", 0) == 0 else
+           "the derivation starts in state %r with no previous atom: the first atom is bonded to nothing" % (R.get("top_state"),),
            key="top-call", nontrivial=True)
     # every non-recursive call of D must be the constant one (found by role); recursive calls are V3
     for f in ctx.db.funcs.values():
